@@ -166,7 +166,7 @@ pub fn run(ctx: &Ctx) -> i32 {
         cf.hazards = vec![h];
         ctx.tape_search(
             &format!("hazard/{h}"),
-            ctx.n(800, 30_000),
+            if h == "sorted_let" { ctx.n(3_000, 100_000) } else { ctx.n(800, 30_000) },
             450,
             |t| gen_case(t, cf.clone()),
             |c| check(c, &ctx.known, true),
